@@ -179,12 +179,17 @@ def probes(r, cfg):
         dev.drop_at = set()
     if hasattr(dev, 'reject_at'):
         dev.reject_at = {}
-    # C15 + C18: runtime read
+    # C15 + C18: runtime read (the same poll is judged for C12 / C13 / C14 below)
+    from .checks.c14 import Probe, _known as _known14
     l0 = len(dev.log)
-    res = r.call(inv.read_runtime_data)
-    if res[0] != 'ok':
-        res = r.call(inv.read_runtime_data)     # "no later than the second call"
+    with Probe() as short_reads:
+        res = r.call(inv.read_runtime_data)
+        if res[0] != 'ok':
+            res = r.call(inv.read_runtime_data)     # "no later than the second call"
     reads_only(l0, 'read_runtime_data')
+    for sid, pos, size, got, win in short_reads.short:
+        if ('C14', f'reads-inside-answer/{fam}/{sid}') not in _known14():
+            out.append(('C14', f'reads-inside-answer/{fam}/{sid}', f'{sid}: read {size} bytes at payload position {pos}, got {got} (window {win[0]}+{win[1]})'))
     if res[0] != 'ok':
         out.append(('C15', 'runtime-read-succeeds-by-second-call', str(res)[:80]))
         return out
@@ -196,6 +201,7 @@ def probes(r, cfg):
     ids = [s.id_ for s in world.listed(inv)]
     if set(data) != set(ids):
         out.append(('C15', 'keys==sensors()', f'only in result {sorted(set(data) - set(ids))[:3]}, only in sensors() {sorted(set(ids) - set(data))[:3]}'))
+    out += poll_probe(r, cfg, data, l0)
     # C16 (+C18): single reads of a few ids: colliding ids, first/last, battery / meter representatives
     if fam != 'ES':
         both = sorted(set(ids) & set(inv._settings))
@@ -281,6 +287,47 @@ def probes(r, cfg):
             out.append(('C19', 'export-limit-round-trip', f'set {x}, get -> {str(g)[:60]}'))
     if dev.bad:
         out.append(('C03', 'requests-parse', str(dev.bad[0][1])))
+    return out
+
+
+def poll_probe(r, cfg, d, l0):
+    """The poll that followed the history, judged value by value: (C12) every reported value whose registers lie inside
+    a block this poll fetched is the documented reading of the device model's registers at the sensor's address; (C13)
+    the derived and label sensors agree with the raw sensors of the same result."""
+    from .blocks import own_span, tname
+    from .sensor_enum import compare
+    from .checks.c13 import relations
+    inv, dev = r.inv, r.dev
+    fam = cfg['family']
+    out = []
+    windows = [(q['reg'], q['reg'] + q['count'] - 1) for q in dev.log[l0:] if q.get('fn') == 3]
+    listed = world.listed(inv)
+    ids = [s.id_ for s in listed]
+    for s in listed:
+        if not own_span(s) or s.id_ not in d or ids.count(s.id_) > 1:
+            continue
+        nb = refdec.size_of(s)
+        if fam == 'ES':
+            if s.offset + nb > len(dev.runtime):
+                continue
+            own = bytes(dev.runtime[s.offset:s.offset + nb])
+        else:
+            if not any(lo <= s.offset and s.offset + (nb + 1) // 2 - 1 <= hi for lo, hi in windows):
+                continue      # registers not inside a block that was fetched: C14's subject
+            own = dev.rf.getbytes(s.offset, (nb + 1) // 2)[:nb]
+        ref = refdec.decode(s, own)
+        got = ('ValueError', '') if (d[s.id_] is None and ref is refdec.NOVALUE) else ('value', d[s.id_])
+        df = compare(s, got, ref)
+        if df:
+            out.append(('C12', f'documented-reading/{tname(s)}', f'{s.id_} @{s.offset} = {own.hex()}: {df}'))
+    hidden = {}
+    if fam == 'ET':
+        for s in world.tables(world.FAMILIES['ET'])['all_sensors']:
+            if s.id_ in ('ppv1', 'ppv2', 'ppv3', 'ppv4') and s.id_ not in d:
+                v = refdec.decode(s, dev.rf.getbytes(s.offset, 2))
+                hidden[s.id_] = None if v is refdec.NOVALUE else v
+    for name, cause in relations(fam, inv, d, hidden):
+        out.append(('C13', name, cause))
     return out
 
 
